@@ -44,6 +44,9 @@ func RunMC(c MCCheck, tier string) int {
 	}
 	deadline := start.Add(dl)
 	pool := par.NewPool(WorkersCPU(), "worker", "mc")
+	// shards carry the exploration deadline themselves; the per-job limit is only a backstop (a shard of a deep
+	// bound may legitimately run for minutes)
+	pool.Timeout = 30 * time.Minute
 	defer pool.Close()
 	var viols []string
 	var errs []string
